@@ -929,7 +929,8 @@ class Terms(object):
                 continue
             if any(st[0] in ("phi", "mu", "rec", "attrv", "opaque", "new")
                    for st in subterms(c[0])) and not all(
-                    self.flow.fact_valid(p_, node) for p_ in ps_):
+                    self.flow.fact_valid(p_, node, origin=J)
+                    for p_ in ps_):
                 continue
             for x in split_cond(*c):
                 if x not in out:
@@ -1454,6 +1455,18 @@ class Terms(object):
             kws.append((k.arg or "**", T(k.value, node, env)))
         kws = tuple(sorted(kws, key=_key))
         args = tuple(args)
+        # itertools.islice(x, a, b) ranges over the elements of x[a:b]
+        # (x[:n] for islice(x, n))
+        if ((isinstance(f, ast.Name) and f.id == "islice") or (
+                isinstance(f, ast.Attribute) and f.attr == "islice" and
+                chain(f.value) == "itertools")) and not kws and \
+                len(args) in (2, 3):
+            N_ = ("const", None)
+            lo_, hi_ = (N_, args[1]) if len(args) == 2 else (args[1],
+                                                             args[2])
+            if lo_ == ("const", 0):
+                lo_ = N_
+            return ("item", args[0], ("slice", lo_, hi_, N_))
         # b"".join((a, b, c)) over a display of two or more parts is
         # a + b + c
         if isinstance(f, ast.Attribute) and f.attr == "join" and \
